@@ -94,6 +94,7 @@ PROPS = {
                       "getter reads, with the registered type and width' and 'a refused value leaves the object unchanged' for all paths of the setters.",
         "level_note": "direct stores and mem* writes into the object are effects; writes made by callees that receive &obj->field are attributed to the callee's own result (not counted)",
         "rules": [
+            {"run": rules_ident.run_narrowedge, "floor": 20},
             {"run": rules_ident.run_convnarrow, "floor": 1, "use_anchor_files": True},
             {"run": rules_layout.run_terminated, "floor": 1},
             {"run": rules_layout.run_flagpath, "floor": 1},
@@ -146,6 +147,7 @@ PROPS = {
         "level_text": "Four structural necessary conditions of 'each request answered at most once, to the right requester', each enumerated over all functions of the anchor files.",
         "level_note": "consumer types are inferred from every convert(x, K, &p) call in the program; first-member embedding counts as the same interface",
         "rules": [
+            {"run": rules_reply.run_idcap, "floor": 1},
             {"run": rules_reply.run_formatargs, "floor": 100, "scope": "anchors"},
             {"run": rules_reply.run_flexcopy, "floor": 1, "use_anchor_files": True},
             {"run": rules_reply.run_outparam_callee, "floor": 1, "use_anchor_files": True},
@@ -334,6 +336,7 @@ PROPS = {
         "level_text": "Decides the path-element clause (element lengths across the 255 limit are rejected or escaped) and memory-discipline necessary conditions of the store.",
         "level_note": "",
         "rules": [
+            {"run": rules_path.run_setbeforeuse, "floor": 40},
             {"run": rules_path.run_queryrest, "floor": 5},
             {"run": rules_lin.run_linpath, "floor": 10},
             {"run": rules_ident.run_narrow, "floor": 4, "use_anchor_files": True, "ctx": {"records": ["mpt_path", "path"]}},
@@ -357,6 +360,7 @@ PROPS = {
         "level_text": "Termination after reading each character once, and 'a failed parse leaves the target tree as it was', for every input and format (structural proofs over all paths).",
         "level_note": "callee effects on the tree (mpt_node_move/clear inside the merge) belong to the success path",
         "rules": [
+            {"run": rules_path.run_localfini, "floor": 1},
             {"run": rules_lin.run_linpath, "floor": 10},
             {"run": rules_path.run_progress, "floor": 8, "use_anchor_files": True},
             {"run": rules_path.run_getcwho, "floor": 3},
